@@ -21,7 +21,7 @@ LEVEL_TEXT = ("Action sequences of up to 30 steps are generated for both API typ
 RULE = ("case = API type + step list over {connect, op_ok, op_raises(login EOF | rejected argument), disconnect, refused_connect, "
         "context_ok, context_body_raises}; non-trivial = contains a reconnect after a failure, a body exception or a refused "
         "connect; distinct by the step list."
-        ' Further steps: idle (1 s .. 25 h of event-loop time under the harness-owned loop clock) and new_loop (the event loop is closed and a new one created while disconnected; the API object is kept). A separate sub-check opens 2..100 clients at once and disconnects them in a generated order. Body exceptions are drawn from 8 classes including OSError subclasses and CancelledError; a refused connection is also provoked through the async context (refused_context).')
+        ' Context bodies may disconnect by hand before leaving (normally or through the exception). Further steps: idle (1 s .. 25 h of event-loop time under the harness-owned loop clock) and new_loop (the event loop is closed and a new one created while disconnected; the API object is kept). A separate sub-check opens 2..100 clients at once and disconnects them in a generated order. Body exceptions are drawn from 8 classes including OSError subclasses and CancelledError; a refused connection is also provoked through the async context (refused_context).')
 ASSUMPTIONS = [
     "connect while already connected is not generated (undocumented); TCP resets are outside the fault alphabet",
     "the device observes end-of-stream when its reader returns b'' for that connection; waited for with loop turns plus a bounded real-time wait for kernel FIN delivery",
@@ -192,20 +192,29 @@ class Lifecycle:
                         self.fail("connected-flag/inside-context", True, self.api.connected)
                     if not await self._wait_open(self.base_open + 1):
                         self.fail("context-did-not-connect", 1, self.dev.open - self.base_open)
+                    if step.get("disconnect_inside"):
+                        # the body disconnects by hand; leaving the context afterwards is the "second disconnect"
+                        await self.api.disconnect()
+                        if self.api.connected is not False:
+                            self.fail("connected-flag/after-disconnect-inside-context", False, self.api.connected)
+                        if not await self._wait_open(self.base_open):
+                            self.fail("device-connection-count/after-disconnect-inside-context", 0, self.dev.open - self.base_open)
                     if a == "context_body_raises":
                         raise BODY_EXC[step.get("exc", "Boom")](step.get("n", 0))
-                    kind = OK_OPS[self.typ][step["n"] % 4]
-                    args = c03.CANON_ARGS[kind]
-                    st_, res = await self._op(kind, args, ops.good_script(kind, args, "0a0b0c0d"))
-                    if st_ != "ok":
-                        self.fail("good-operation-fails/in-context", "a response", f"{st_}: {res!r}")
+                    if not step.get("disconnect_inside"):
+                        kind = OK_OPS[self.typ][step["n"] % 4]
+                        args = c03.CANON_ARGS[kind]
+                        st_, res = await self._op(kind, args, ops.good_script(kind, args, "0a0b0c0d"))
+                        if st_ != "ok":
+                            self.fail("good-operation-fails/in-context", "a response", f"{st_}: {res!r}")
             except Violation:
                 raise
             except tuple(BODY_EXC.values()) as b:
                 if a != "context_body_raises" or type(b) is not BODY_EXC[step.get("exc", "Boom")] or b.args != (step.get("n", 0),):
                     self.fail("body-exception-altered", step.get("exc", "Boom"), repr(b))
             except Exception as exc:
-                self.fail("context-raises", "no exception" if a == "context_ok" else "Boom", f"{type(exc).__name__}: {exc}")
+                self.fail("context-raises" + ("/after-disconnect-inside" if step.get("disconnect_inside") else ""),
+                          "no exception" if a == "context_ok" else "Boom", f"{type(exc).__name__}: {exc}")
             else:
                 if a == "context_body_raises":
                     self.fail("body-exception-swallowed", "Boom propagates", "no exception")
@@ -369,14 +378,14 @@ def machine_factory(typ):
                 self.do({"action": "refused_context"})
 
             @precondition(lambda self: not self.sys.model_connected)
-            @rule(n=st.integers(0, 3))
-            def context_ok(self, n):
-                self.do({"action": "context_ok", "n": n})
+            @rule(n=st.integers(0, 3), inside=st.sampled_from([False, False, True]))
+            def context_ok(self, n, inside):
+                self.do(dict({"action": "context_ok", "n": n}, **({"disconnect_inside": True} if inside else {})))
 
             @precondition(lambda self: not self.sys.model_connected)
-            @rule(n=st.integers(0, 3), exc=st.sampled_from(sorted(BODY_EXC)))
-            def context_body_raises(self, n, exc):
-                self.do({"action": "context_body_raises", "n": n, "exc": exc})
+            @rule(n=st.integers(0, 3), exc=st.sampled_from(sorted(BODY_EXC)), inside=st.sampled_from([False, False, False, True]))
+            def context_body_raises(self, n, exc, inside):
+                self.do(dict({"action": "context_body_raises", "n": n, "exc": exc}, **({"disconnect_inside": True} if inside else {})))
 
             def teardown(self):
                 steps = self.sys.trace
